@@ -95,7 +95,13 @@ func (c11) Gen(seed uint64, tier string) *Scenario {
 					prefix += "\nCOMMIT;"
 				}
 			}
-			switch r.Intn(12) {
+			switch r.Intn(14) {
+			case 12:
+				// a second handler for the same container key (names differing in case only)
+				tn := tableName(r.Intn(ntab))
+				extra = fmt.Sprintf("UPDATE %s SET n = n + 1;\nCREATE TABLE `%s.csv` (a, b);", tn, strings.ToUpper(tn))
+			case 13:
+				extra = fmt.Sprintf("CREATE TABLE `k%d.csv` (a);\nINSERT INTO `k%d.csv` VALUES (1);\nCREATE TABLE `K%d.CSV` (a);", p, p, p)
 			case 8:
 				extra = fmt.Sprintf("UPDATE %s SET n = n + 7;\nIF TRUE THEN WHILE TRUE DO EXIT 4; END WHILE; END IF;", tableName(r.Intn(ntab)))
 			case 9:
